@@ -1,7 +1,7 @@
 #!/usr/bin/env python3
 # generates frame lemmas: projections through host_take / host_release / enqueue (mechanical)
 import re, subprocess, sys
-src = open('/root/scratch/c08/tools/gen_setters.py').read()
+src = open('/verif/tools/close_gen_setters.py').read()
 fields = re.findall(r'\("(\w+)","', src)
 changed = {
  'host_release': {'lp','rp','gp','ndr'},
